@@ -1,6 +1,7 @@
 //! dbh — embedded-database engines. `dbh <engine> --seed N --tier quick|thorough --out FILE`
 
 mod hist_eng;
+mod search_eng;
 mod storage_eng;
 mod term_eng;
 
@@ -31,6 +32,11 @@ fn run_engine(engine: &str, args: &Args) -> Report {
         "hist_c18" => drive(&hist_eng::Hist { prop: "C18" }, args),
         "c13" => drive(&hist_eng::C13, args),
         "c19" => drive(&term_eng::C19, args),
+        "c14" => drive(&search_eng::C14, args),
+        "c15" => drive(&search_eng::C15, args),
+        "c16" => drive(&search_eng::C16, args),
+        "c17" => drive(&search_eng::C17, args),
+        "c18s" => drive(&search_eng::C18S, args),
         _ => {
             eprintln!("unknown engine '{engine}'");
             std::process::exit(2);
